@@ -547,7 +547,7 @@ theorem good_shift (ms σ asg op a b) (iha : Good ms σ asg a) (ihb : Good ms σ
     · next hop =>
       simp only [Except.ok.injEq] at hC; subst hC
       refine Sim.int _ hna hta ?_ rfl (kindOK_plain _ _)
-      simp only [hop, if_true, evalPure, heva, hevb, bind, Except.bind, evalBin, isShift]
+      simp only [hop, if_true, evalPure, heva, hevb, bind, Except.bind, evalBin, isShift, shl_eq]
     · next hop =>
       rw [hsg]
       split at hC
